@@ -64,6 +64,20 @@ EpWorld(two, full) ==
       ok == {p \in ps : Valid(p)}
   IN ok \cup {Mirror(p) : p \in ok}
 
+\* ep3:    an en-passant capture with a BYSTANDER: kings tucked away, the capturing pawn, the pawn that just advanced two
+\*         (every file, capture from either side), and one more man of any kind and colour on any square of the three files
+\*         involved - a second pawn on the victim's file above or below it, a piece on the square the victim came from, ...
+\*         The successor must lose exactly the victim.  (The shard constant splits the bystander's squares.)
+Ep3World ==
+  LET pairs == {<<32 + f, 32 + g>> : f \in 0..7, g \in 0..7} 
+      adj == {c \in pairs : (c[1] % 8) - (c[2] % 8) \in {1, -1}}          \* <<capturer (white, rank 5), victim (black, rank 5)>>
+      Files3(c) == {q \in Squares : (q % 8) \in {(c[2] % 8) - 1, c[2] % 8, (c[2] % 8) + 1}}
+      SetsFor(c) == { {<<6, 6>>, <<62, 12>>, <<c[1], 1>>, <<c[2], 7>>, <<x, k>>}
+                        : x \in {q \in Files3(c) : q % NShards = Shard} \ {c[2] + 8, c[2] + 16}, k \in {1, 2, 3, 4, 5, 7, 8, 9, 10, 11} }
+      ps == UNION {{[bd |-> Put(y), stm |-> "w", cr |-> {}, ep |-> c[2] + 8] : y \in {z \in SetsFor(c) : DistinctSquares(z)}} : c \in adj}
+      ok == {p \in ps : Valid(p)}
+  IN ok \cup {Mirror(p) : p \in ok}
+
 CastleWorld(two) ==
   LET kinds == {7, 8, 9, 10, 11}
       home == {<<4, 6>>, <<0, 4>>, <<7, 4>>}
@@ -106,6 +120,7 @@ CheckWorld ==
 World == CASE SeedMode = "ep1" -> EpWorld(FALSE, TRUE)
            [] SeedMode = "ep2" -> EpWorld(TRUE, FALSE)
            [] SeedMode = "ep2full" -> EpWorld(TRUE, TRUE)
+           [] SeedMode = "ep3" -> Ep3World
            [] SeedMode = "castle1" -> CastleWorld(FALSE)
            [] SeedMode = "castle2" -> CastleWorld(TRUE)
            [] SeedMode = "chk1" -> CheckWorld
